@@ -82,7 +82,7 @@ let parse_ops toks = List.map (fun t ->
   let o = match Char.lowercase_ascii c with
     | 'v' -> OValue | 'a' -> OAdvance | 'r' -> OReset | 'c' -> OClone | 'k' -> OConsume | 'w' -> OWalk | 's' -> OString
     | 'y' -> OKey | 'q' -> OKeyN | 'x' -> OVec | 'o' -> OVecN | 'u' -> OUint | 'j' -> OWalkK | 'l' -> OWalkV
-    | 'm' -> OMeta | 'z' -> OSkip | 'n' -> OMetaS
+    | 'm' -> OMeta | 'z' -> OSkip | 'n' -> OMetaS | 'd' -> ORedesc
     | _ -> failwith ("bad op " ^ t) in
   (o, upper)) toks
 
@@ -95,6 +95,12 @@ let hexb b = hex_of_bytes b
 let show_meta strkind r =
   let c = Array.of_list (List.map zs r.mr_codes) in
   let head = Printf.sprintf "M:%s:%s/%s:%s/1:%s:%s" c.(0) c.(1) (hexb r.mr_fmt) c.(2) c.(3) c.(4) in
+  if Array.length c = 8 then begin
+    (* generators: 's' with target (+ text), 's' without target, addref *)
+    let str = if int_of_string c.(5) < 0 then c.(5) ^ "/-" else
+      c.(5) ^ "/" ^ (match r.mr_str with MNull -> "null" | _ -> "set") in
+    Printf.sprintf "%s:%s:%s:%s" head str c.(6) c.(7)
+  end else
   if strkind then Printf.sprintf "%s:%s:%s:%s:%s:%s" head c.(5) c.(6) c.(7) c.(8) c.(9)
   else begin
     let same k = if int_of_string c.(k) < 0 then c.(k) ^ "/-1" else c.(k) ^ "/1" in
@@ -111,7 +117,7 @@ let show_m strkind (op, _) o = match o with
      | Some b when int_of_z c >= 0 -> pre ^ ":" ^ zs c ^ ":" ^ hexb b
      | None when int_of_z c >= 0 -> pre ^ ":" ^ zs c ^ ":null"
      | _ -> pre ^ ":" ^ zs c)
-  | OutC c -> (match op with OKeyN -> "Yn" | OMetaS -> "Sn" | _ -> "Xn") ^ ":" ^ zs c
+  | OutC c -> (match op with OKeyN -> "Yn" | OMetaS -> "Sn" | ORedesc -> "D" | _ -> "Xn") ^ ":" ^ zs c
   | OutU (c, v) -> if int_of_z c < 0 then "G:" ^ zs c else
       "G:" ^ zs c ^ ":" ^ (match v with Some n -> string_of_int (int_of_n n) | None -> "unset")
   | OutWB (l, e) -> Printf.sprintf "%s:%d:%s:%s" (if op = OWalkK then "J" else "H") (List.length l) (wend_m e)
@@ -125,7 +131,7 @@ let show_m strkind (op, _) o = match o with
   | OutV (VVec b) -> "V:v:" ^ hex_of_bytes b
   | OutA c -> "A:" ^ zs c
   | OutR c -> "R:" ^ zs c
-  | OutK ok -> if ok then "K:1" else "K:0"
+  | OutK ok -> (if op = ORedesc then "D:" else "K:") ^ (if ok then "1" else "0")
   | OutQ (c, v) -> "Q:" ^ zs c ^ ":" ^ opt_dbl v
   | OutW (l, e) -> Printf.sprintf "W:%d:%s:%s" (List.length l) (wend_m e) (join (List.map opt_bits l))
   | OutS (Some b) -> "T:" ^ hex_of_bytes b
@@ -154,6 +160,8 @@ let show_s cf (op, _) o = match op, o with
   | (OWalkK | OWalkV), SoW (l, e) -> Printf.sprintf "%s:%d:%s:%s" (if op = OWalkK then "J" else "H") (List.length l) (wend_s e)
                                        (join (List.map elem_hex l))
   | OMetaS, SoK true -> "Sn:+"
+  | ORedesc, SoK ok -> if ok then "D:1" else "D:0"
+  | ORedesc, SoA _ -> "D:-"
   | _, SoZ (ARefused, _) -> "Z:-" | _, SoZ (ANotMore, _) -> "Z:<=0"
   | _, SoZ (_, true) -> "Z:+" | _, SoZ (_, false) -> "Z:0"
   | _ -> match o with
